@@ -137,7 +137,7 @@ class C15(Prop):
                 "NV.C15.check_valid_path_absent_or_odd_approves", "NV.C15.mediation_propagates_errors", "NV.C15.cvp_call_table", "NV.C15.legal_path_literals",
                 "NV.C15.save_tmp_format",
                 "NV.C15.mediated_sites", "NV.C15.inventory_covers_efuns", "NV.C15.efun_surface_modelled",
-                "NV.C15.ext_callees_classified", "NV.C15.fs_callees_cover", "NV.C15.path_function_literals",
+                "NV.C15.ext_callees_classified", "NV.C15.fs_callees_cover", "NV.C15.path_function_literals", "NV.C15.strip_name_literals",
                 "NV.C15.efun_libc_table", "NV.C15.binary_model_satisfies_spec", "NV.C15.history_satisfies_spec", "NV.C15.nested_ok", "NV.C15.segOk_askEv", "NV.C15.static_bufs_classified", "NV.C15.inc_list_stores_guarded", "NV.C15.nest_single_ok", "NV.C15.judge_il_model",
                 "NV.C15.include_path_confined_any_config",
                 "NV.C15.buffer_sizes", "NV.C15.buffer_guards_present", "NV.C15.getdir_path_not_truncated",
